@@ -15,7 +15,7 @@ test = fname[:-3]
 res = {"property": pid, "variant": x, "crate": crate, "demo_test": test}
 sh("git checkout -- . && git clean -fdq -e target -e Cargo.lock")
 dst = f"{wt}/{crate}/tests/{fname}"
-shutil.copy(f"{src}/demo.rs", dst)
+os.makedirs(os.path.dirname(dst), exist_ok=True); shutil.copy(f"{src}/demo.rs", dst)
 fm = re.search(r'--features[ =]([\w,-]+)', demo)
 feat = f" --features {fm.group(1)}" if fm else ""
 cmd = f"cargo test -p {crate} --test {test}{feat} --offline -- --test-threads 1"
